@@ -53,8 +53,15 @@ def run(chk):
     if offenders:
         chk.violation(f"super-linear intermediate: {offenders[0]}", dict(kind="shape", offender=offenders[0]), found_input=True)
     elif not gen_ok:
+        wit = None
+        wp = Path("/verif/out/jaxpr_witness.json")
+        if wp.exists() and "structure depends" in p.stdout:
+            try:
+                wit = json.loads(wp.read_text())
+            except Exception:  # noqa: BLE001
+                wit = None
         chk.violation("shape-table generator rejects the current source: " + p.stdout.strip()[-300:],
-                      dict(kind="generator", message=p.stdout[-800:]), found_input=False)
+                      dict(kind="generator", message=p.stdout[-800:], offender=wit), found_input=wit is not None)
     elif not proof_ok:
         pr = chk.proof
         chk.violation(f"proof obligation no longer checks: {pr.get('failing_file')}:{pr.get('failing_line')} ({pr.get('failing_theorem')})",
